@@ -2,14 +2,36 @@
 from driver.common import Case, dd_chunks
 
 ID = "C05"
-LEVEL_TEXT = "Lean theorems: the Go codon translation over the regenerated tables equals the NCBI-table meaning for every byte triple and all 3 codes (17^3 representatives by kernel evaluation, lifted to all bytes), plus frame/length/error theorems by induction over sequences; tied to /repo by table regeneration and an exhaustive 3x38^3 codon correspondence run. CodonAlign / TranslateByReference: see evidence 'partial'."
+LEVEL_TEXT = ("Lean theorems: the Go codon translation over the regenerated tables equals the NCBI-table meaning for every byte triple and "
+              "all 3 codes (17^3 representatives by kernel evaluation, lifted to all bytes); frame/length/error theorems by induction over "
+              "sequences; three-frame naming and count, cached length; CodonAlign: 3x length, ungapped rows = original nucleotides minus <= 2 "
+              "trailing, and threading nucleotides onto a gapped copy of their own translation succeeds and translates back (all 3 codes, all "
+              "gap placements); TranslateByReference: rectangular result in every frame, equal to plain translation in every frame when no "
+              "row has a gap, frame-0 reference row (gaps removed) a prefix of the translation of the ungapped reference, exact error "
+              "conditions; tied to /repo by table regeneration, an exhaustive 3x38^3 codon correspondence run and differential "
+              "correspondence of the container operations with the property's predicates evaluated on the implementation's rows.")
 LEVEL_NOTE = 'Trusted: Lean kernel; tools/extract transcription of const.go; correspondence harness; NCBI tables 1,2,5 transcribed in Spec/Genetic.lean; model validated on generated cases only.'
 TECHNIQUE = 'Lean 4 proof (decide +kernel over regenerated tables, induction) + differential correspondence'
 LEAN_MODULES = ["Gv.Props.C05"]
 REQUIRED_THEOREMS = ["Gv.Props.C05." + n for n in [
     "geneticCode_dispatch", "translateCodon_eq_spec", "translate_length", "translate_error_iff",
-    "translate_residue"]]
-RULE = ("exhaustive: 3 genetic codes x 38^3 codons over {ACGTU + 11 IUPAC codes} in both cases, '-', and the "
+    "translate_residue", "gap_codon", "codon_gap_iff", "translate_eq_codons",
+    "codonAlign_rows", "codonAlign_length", "codonAlign_ungapped_rows", "codonAlign_translates_back", "codonAlign_error_iff",
+    "byRef_rectangular", "byRef_eq_translate_of_no_gaps_partial", "byRef_short_returns_empty_rows",
+    "byRef_no_gaps_counterexample", "byRef_ref_row_prefix",
+    "byRef_error_iff", "three_frames_names_and_count", "one_frame_names_and_count", "alignTranslate_length"]]
+PARTIAL = ["TranslateByReference vs plain translation on an alignment without gaps that is shorter than 3+phase: plain translation is an "
+           "error, the reference-guided one returns rows without residues (theorem byRef_short_returns_empty_rows; both behaviours are "
+           "modelled as they are and confirmed on the implementation, tag byref-*; kernel-checked instance byRef_no_gaps_counterexample); byRef_eq_translate_of_no_gaps_partial therefore speaks about "
+           "the rows on which plain translation succeeds",
+           "TranslateByReference is modelled for phase >= 0 (a negative phase indexes the reference row at -1: run-time panic, outside the "
+           "property's frames 0,1,2); rows are assumed to have the length of the reference row (alignment invariant, C01)",
+           "SeqBag.Translate renames colliding output names (name_0001 ...): collisions between '<a>_0' style names and existing names are "
+           "not modelled (oracle: unmodelled)"]
+RULE = ("CodonAlign: 1..4 rows, protein rows = gapped translations of random A/C/G/T sequences with 0..2 trailing bases, plus too "
+        "short / too long / missing nucleotide sequences and arbitrary protein letters; TranslateByReference: 1..4 rows x 0..24 columns, "
+        "gap-free / random gaps / gap runs, frames 0..2, unknown and empty reference names, an invalid code; "
+        "exhaustive: 3 genetic codes x 38^3 codons over {ACGTU + 11 IUPAC codes} in both cases, '-', and the "
         "nucleotide-compatible unknown symbols ? * . X x, packed 300 codons per call; random sequences of length "
         "0..40 x frames 0..2 x codes incl. an invalid code; sequences with protein-only / unknown letters (error "
         "path); non-trivial = codon with an ambiguity/gap/unknown symbol, or frame 1-2")
@@ -47,6 +69,10 @@ def gen(rng, tier):
         yield Case("translate", [rng.randint(3, 6), 0, s], False, "large-phase")
     for c in gen_al(rng, tier):
         yield c
+    for c in gen_codonalign(rng, tier):
+        yield c
+    for c in gen_byref(rng, tier):
+        yield c
 
 
 def gen_al(rng, tier):
@@ -60,7 +86,112 @@ def gen_al(rng, tier):
         yield Case("altranslate", [1, rng.choice([0, 1, 2, -1, -1]), rng.choice([0, 1, 2, 0, 1, 2, 3]), rows], L >= 5, "alignment-translate")
 
 
+NCBI = ["FFLLSSSSYY**CC*WLLLLPPPPHHQQRRRRIIIMTTTTNNKKSSRRVVVVAAAADDEEGGGG",
+        "FFLLSSSSYY**CCWWLLLLPPPPHHQQRRRRIIMMTTTTNNKKSS**VVVVAAAADDEEGGGG",
+        "FFLLSSSSYY**CCWWLLLLPPPPHHQQRRRRIIMMTTTTNNKKSSSSVVVVAAAADDEEGGGG"]
+
+
+def _tr(code, nt):
+    """plain translation of an A/C/G/T string (generator side only: builds protein rows that are real translations)"""
+    ix = {"T": 0, "C": 1, "A": 2, "G": 3}
+    return "".join(NCBI[code][16 * ix[nt[i]] + 4 * ix[nt[i + 1]] + ix[nt[i + 2]]] for i in range(0, len(nt) - 2, 3))
+
+
+def _gapped(rng, s, L):
+    s = list(s)
+    while len(s) < L:
+        s.insert(rng.randint(0, len(s)), "-")
+    return "".join(s)
+
+
+def gen_codonalign(rng, tier):
+    """CodonAlign: protein rows that are the (gapped) translations of their nucleotides, 0..2 trailing nucleotides; plus
+    too short / too long nucleotides, missing names, arbitrary protein letters"""
+    N = 200 if tier == "quick" else 2000
+    for _ in range(N):
+        n = rng.randint(1, 4)
+        code = rng.randint(0, 2)
+        nts, prots = [], []
+        for i in range(n):
+            k = rng.randint(0, 6)
+            nt = "".join(rng.choice("ACGT") for _ in range(3 * k + rng.choice([0, 0, 1, 2])))
+            nts.append(nt)
+            prots.append(_tr(code, nt))
+        kind = rng.choice(["own", "own", "own", "short", "long", "missing", "letters"])
+        if kind == "short":
+            j = rng.randrange(n)
+            nts[j] = nts[j][:max(0, len(nts[j]) - rng.randint(1, 4))]
+        elif kind == "long":
+            j = rng.randrange(n)
+            nts[j] += "".join(rng.choice("ACGT") for _ in range(rng.randint(1, 4)))
+        elif kind == "letters":
+            prots = ["".join(rng.choice("ARNDX*-") for _ in p) for p in prots]
+        L = max(len(p) for p in prots) + rng.randint(0, 2)
+        prots = [_gapped(rng, p, L) for p in prots]
+        prows = ",".join("s%d:%s" % (i, p) for i, p in enumerate(prots))
+        order = list(range(n))
+        rng.shuffle(order)
+        if kind == "missing":
+            order = order[1:]
+        nrows = ",".join("s%d:%s" % (i, nts[i]) for i in order) or "_"
+        yield Case("codonalign", [code, prows, nrows], L > 0 and kind == "own", "codonalign-" + kind)
+
+
+def gen_byref(rng, tier):
+    """TranslateByReference: gapped and gap-free alignments, every frame, reference rows starting / ending with gaps,
+    unknown / empty reference names, an invalid code"""
+    N = 400 if tier == "quick" else 4000
+    for _ in range(N):
+        n = rng.randint(1, 4)
+        L = rng.choice([0, 1, 2, 3, 4, 5, 6, 7, 8, 9, rng.randint(10, 24)])
+        kind = rng.choice(["nogap", "gappy", "gappy", "gapruns"])
+        al = rng.choice(["ACGT", "ACGT", "ACGTRYN"])
+        rows = []
+        for i in range(n):
+            if kind == "nogap":
+                r = "".join(rng.choice(al) for _ in range(L))
+            elif kind == "gappy":
+                r = "".join(rng.choice(al + "--") for _ in range(L))
+            else:
+                r = ""
+                while len(r) < L:
+                    r += rng.choice(["-", "--", "---", "----"]) if rng.random() < 0.4 else "".join(rng.choice(al) for _ in range(rng.randint(1, 4)))
+                r = r[:L]
+            rows.append(r)
+        ref = rng.choice(["s%d" % rng.randrange(n)] * 8 + ["zz", ""])
+        ph = rng.choice([0, 0, 0, 1, 2])
+        code = rng.choice([0, 1, 2, 0, 1, 2, 7])
+        rs = ",".join("s%d:%s" % (i, r) for i, r in enumerate(rows))
+        yield Case("byref", [ph, code, ref, rs], L >= 3 and ref.startswith("s"), "byref-" + kind)
+
+
+def _rows(s):
+    return [] if s == "_" else [tuple(r.split(":", 1)) for r in s.split(",")]
+
+
+def _enc(rows):
+    return ",".join("%s:%s" % r for r in rows) if rows else "_"
+
+
 def shrink(c):
+    if c.op == "byref":
+        ph, code, ref, rs = c.args
+        rows = _rows(rs)
+        for i in range(len(rows)):
+            if len(rows) > 1 and rows[i][0] != ref:
+                yield Case(c.op, [ph, code, ref, _enc(rows[:i] + rows[i + 1:])])
+        L = len(rows[0][1]) if rows else 0
+        for a, b in dd_chunks(L):
+            yield Case(c.op, [ph, code, ref, _enc([(nm, s[:a] + s[b:]) for nm, s in rows])])
+        return
+    if c.op == "codonalign":
+        code, ps, ns = c.args
+        prot, nts = _rows(ps), _rows(ns)
+        for i in range(len(prot)):
+            if len(prot) > 1:
+                nm = prot[i][0]
+                yield Case(c.op, [code, _enc(prot[:i] + prot[i + 1:]), _enc([r for r in nts if r[0] != nm])])
+        return
     if c.op != "translate":
         return
     s = c.args[2]
@@ -74,6 +205,8 @@ def shrink(c):
 
 
 def matches(c):
+    if c.op == "byref" and c.model == "err":
+        return (c.impl or "").startswith("err")      # errors are raised before the alignment is touched
     if c.op == "altranslate" and c.model == "err":
         return (c.impl or "").startswith("err")      # what an operation that failed leaves behind is not judged
     return c.model == c.impl
